@@ -25,5 +25,5 @@ REQUIRED = ["sequences", "evicted_announcements", "limit_by_latency", "limit_by_
 
 def runs(tier, seed):
     if tier == "thorough":
-        return [Run("orphanage", cases=200000, params={"len": 200}, timeout=14400)]
+        return [Run("orphanage", cases=100000, params={"len": 200}, timeout=14400)]
     return [Run("orphanage", cases=3000, params={"len": 200}, timeout=7200)]
